@@ -47,6 +47,12 @@ Proof. reflexivity. Qed.
 Lemma torn_clen0 t : torn t -> clen t = 0 -> t = [].
 Proof. intros Ht; inversion Ht; subst; simpl; intros; [reflexivity| |]; flia. Qed.
 
+Ltac split3 := split; [|split].
+Ltac split4 := split; [|split; [|split]].
+Ltac split5 := split; [|split; [|split; [|split]]].
+Ltac split6 := split; [|split; [|split; [|split; [|split]]]].
+Ltac split7 := split; [|split; [|split; [|split; [|split; [|split]]]]].
+
 Opaque pre.
 
 Section WithName.
@@ -164,12 +170,6 @@ Qed.
 
 Lemma elog_app a b : elog_of (a ++ b) = elog_of a ++ elog_of b.
 Proof. unfold elog_of. now rewrite flat_map_app. Qed.
-
-Ltac split3 := split; [|split].
-Ltac split4 := split; [|split; [|split]].
-Ltac split5 := split; [|split; [|split; [|split]]].
-Ltac split6 := split; [|split; [|split; [|split; [|split]]]].
-Ltac split7 := split; [|split; [|split; [|split; [|split; [|split]]]]].
 
 Lemma flush_ok ds0 bs0 f w ds bs sz ff w' ops ok :
   View f ds bs [] -> prefix ds0 ds -> prefix bs0 bs ->
@@ -473,3 +473,228 @@ Proof.
 Qed.
 
 End WithName.
+
+(* ---------------------------------------------------------------- whole histories *)
+
+Fixpoint no_failed_close (h : list api) (oks : list bool) : bool :=
+  match h, oks with
+  | a :: t, ok :: oks' => negb (is_close a && negb ok) && no_failed_close t oks'
+  | _, _ => true
+  end.
+
+Lemma flush_open fixed w sz ff : w_open (fst (fst (flush fixed w sz ff))) = w_open w.
+Proof. unfold flush. destruct (w_buf w); [reflexivity|]. destruct ff, fixed; reflexivity. Qed.
+
+Section Runs.
+Variable nlen : N.
+
+Lemma step_open f w a w1 ops ok :
+  w_step nlen f w a = (w1, ops, ok) ->
+  w_open w1 = match a with AOpen => true | AClose _ _ _ => false | _ => w_open w end.
+Proof.
+  unfold w_step, w_step_gen. intros H. destruct a as [e fl|sz ff|sz ff sok|sz ff sok|].
+  - destruct (w_open w) eqn:Ho; simpl in H.
+    + destruct fl as [[sz ff]|].
+      * pose proof (flush_open true (mkw true (w_buf w ++ [e]) (w_end w)) sz ff) as E.
+        rewrite H in E. exact E.
+      * now injection H as <- _ _.
+    + injection H as <- _ _. exact Ho.
+  - destruct (w_open w) eqn:Ho; simpl in H.
+    + pose proof (flush_open true w sz ff) as E. rewrite H in E. simpl in E. congruence.
+    + injection H as <- _ _. exact Ho.
+  - destruct (w_open w) eqn:Ho; simpl in H.
+    + pose proof (flush_open true w sz ff) as E.
+      destruct (flush true w sz ff) as [[w2 o2] k2]. simpl in E.
+      destruct k2; simpl in H; [destruct sok|]; injection H as <- _ _; congruence.
+    + injection H as <- _ _. exact Ho.
+  - destruct (w_open w) eqn:Ho; simpl in H.
+    + destruct (flush true w sz ff) as [[w2 o2] k2].
+      destruct k2; simpl in H; [destruct sok|]; now injection H as <- _ _.
+    + injection H as <- _ _. exact Ho.
+  - destruct (w_open w) eqn:Ho.
+    + injection H as <- _ _. exact Ho.
+    + unfold open_file in H. destruct (vol f) as [c|].
+      * destruct (clen c <? pre_len nlen); [now injection H as <- _ _|].
+        now injection H as <- _ _.
+      * now injection H as <- _ _.
+Qed.
+
+Lemma submitted_cons open a t open1 :
+  open1 = match a with AOpen => true | AClose _ _ _ => false | _ => open end ->
+  submitted open (a :: t) = sub1 open a ++ submitted open1 t.
+Proof. intros ->. destruct a as [e fl| | | |]; simpl; try reflexivity. now destruct open. Qed.
+
+Lemma run_ok h : forall f w ds bs f' w' ops oks,
+  SInv nlen f w ds bs -> Forall api_ok h -> w_run nlen f w h = (f', w', ops, oks) ->
+  exists ds' bs',
+    SInv nlen f' w' ds' bs' /\ prefix ds ds' /\ prefix bs bs' /\
+    chain (P0 nlen ds bs) f ops /\ f' = fs_run f ops /\
+    (no_failed_close h oks = true ->
+       elog_of bs' ++ w_buf w' = elog_of bs ++ w_buf w ++ submitted (w_open w) h).
+Proof.
+  induction h as [|a t IH]; intros f w ds bs f' w' ops oks HS Hok Hrun.
+  - injection Hrun as <- <- <- <-. exists ds, bs. split6; auto using prefix_refl.
+    + constructor. exists ds, bs. split3; auto using prefix_refl. apply HS.
+    + intros _. simpl. now rewrite app_nil_r.
+  - inversion Hok as [|? ? Ha Ht]; subst.
+    unfold w_run in Hrun. simpl in Hrun. fold (w_step nlen f w a) in Hrun.
+    destruct (w_step nlen f w a) as [[w1 ops1] ok1] eqn:Hstep.
+    fold (w_run nlen (fs_run f ops1) w1 t) in Hrun.
+    destruct (w_run nlen (fs_run f ops1) w1 t) as [[[f2 w2] ops2] oks2] eqn:Hrest.
+    injection Hrun as <- <- <- <-.
+    destruct (step_ok nlen f w ds bs a w1 ops1 ok1 HS Ha Hstep)
+      as (ds1 & bs1 & HS1 & Hd1 & Hb1 & Hc1 & Htr1 & _).
+    destruct (IH _ _ _ _ _ _ _ _ HS1 Ht Hrest)
+      as (ds2 & bs2 & HS2 & Hd2 & Hb2 & Hc2 & Hf2 & Htr2).
+    exists ds2, bs2. split6; eauto using prefix_trans.
+    + apply chain_app; [exact Hc1|]. eapply chain_mono; [|exact Hc2].
+      intros g. now apply P0_mono.
+    + now rewrite Hf2, fs_run_app.
+    + intros Hnf. simpl in Hnf. apply andb_true_iff in Hnf as [Hn1 Hn2].
+      apply negb_true_iff in Hn1. rewrite (Htr2 Hn2), app_assoc, (Htr1 Hn1).
+      rewrite (submitted_cons (w_open w) a t (w_open w1)) by (eapply step_open; eauto).
+      now rewrite <- !app_assoc.
+Qed.
+
+Lemma w_run_app h1 : forall h2 f w,
+  w_run nlen f w (h1 ++ h2) =
+  let '(f1, w1, ops1, oks1) := w_run nlen f w h1 in
+  let '(f2, w2, ops2, oks2) := w_run nlen f1 w1 h2 in
+  (f2, w2, ops1 ++ ops2, oks1 ++ oks2).
+Proof.
+  induction h1 as [|a t IH]; intros h2 f w.
+  - simpl. destruct (w_run nlen f w h2) as [[[? ?] ?] ?]. reflexivity.
+  - unfold w_run in *. simpl. destruct (w_step_gen true nlen f w a) as [[w1 ops1] ok1].
+    rewrite IH. destruct (w_run_gen true nlen (fs_run f ops1) w1 t) as [[[f1 w1'] o1] k1].
+    assert (E : forall X, fs_run X [] = X) by reflexivity.
+    destruct (w_run_gen true nlen f1 w1' h2) as [[[f2 w2] o2] k2]. now rewrite <- app_assoc.
+Qed.
+
+Lemma run_fs f w h f' w' ops oks :
+  SInv nlen f w (loaded_blocks true (dur f)) (loaded_blocks true (vol f)) ->
+  Forall api_ok h -> w_run nlen f w h = (f', w', ops, oks) -> f' = fs_run f ops.
+Proof. intros HS Hh Hr. destruct (run_ok h _ _ _ _ _ _ _ _ HS Hh Hr) as (? & ? & ?). tauto. Qed.
+
+(* ================================================================ C02 / C25 statements *)
+
+(* states from which histories may start: any well-shaped file with a closed writer
+   (the empty file system; the file system right after any crash) *)
+Definition start_ok (f : fs) : Prop :=
+  exists ds bs, Inv nlen f ds bs.
+
+Lemma start_empty : start_ok fs_empty.
+Proof.
+  exists [], []. split4; simpl; try (apply sh_none; reflexivity); [apply prefix_refl|constructor].
+Qed.
+
+(* C02, clauses 1-3: crash after ANY prefix of the operations issued by ANY history (with any
+   flush placement and any interleaved write faults), ANY crash image: the next load does not
+   fail because of a torn tail (the reader errs only when no block was ever complete and the
+   header area itself is torn: then the swamp is legitimately empty), and it yields exactly
+   the blocks up to some flush boundary that is not before the durable one. The image is
+   again a legal start state (so the statement covers repeated crashes). *)
+Theorem crash_recovers_boundary f0 h p q img :
+  start_ok f0 -> Forall api_ok h ->
+  oplog nlen f0 w_closed h = p ++ q ->
+  crash_image nlen (fs_run f0 p) img ->
+  let D := loaded_blocks true (dur (fs_run f0 p)) in
+  let B := loaded_blocks true (vol (fs_run f0 p)) in
+  exists cs,
+    (recover true img = Some cs \/ (recover true img = None /\ cs = [] /\ D = [])) /\
+    prefix D cs /\ prefix cs B /\
+    prefix (loaded_blocks true (dur f0)) D /\
+    start_ok (fs_crashed img).
+Proof.
+  intros (ds & bs & HI) Hh Hlog Hci D B.
+  unfold oplog, oplog_gen in Hlog. fold (w_run nlen f0 w_closed h) in Hlog.
+  destruct (w_run nlen f0 w_closed h) as [[[f' w'] ops] oks] eqn:Hrun. subst ops.
+  destruct (run_ok h _ _ _ _ _ _ _ _ (sinv_closed nlen _ _ _ HI) Hh Hrun)
+    as (ds' & bs' & _ & _ & _ & Hc & _ & _).
+  destruct (chain_prefix _ _ _ Hc p q eq_refl) as (dp & bp & HIp & Hdp & Hbp).
+  destruct (crash_image_shaped nlen _ _ _ _ HIp Hci) as (cs & Hsh & H1 & H2).
+  destruct (inv_blocks nlen _ _ _ HIp) as [ED EB].
+  destruct (inv_blocks nlen _ _ _ HI) as [ED0 _].
+  assert (Hokcs : blocks_ok cs).
+  { eapply blocks_ok_prefix; [exact H2|]. apply HIp. }
+  exists cs. unfold D, B. rewrite ED, EB, ED0. split5; auto.
+  - destruct (recover_shaped nlen _ _ Hsh) as [E|[E E2]]; [now left|right].
+    split3; auto. subst cs. now apply prefix_of_nil in H1.
+  - exists cs, cs. now apply inv_crashed.
+Qed.
+
+(* C02 "contains every record that was durably synced" + C25 "later writes are stored":
+   after any history (any flush placement, any write faults) in which no Close failed, the
+   blocks in the file plus the buffer hold exactly the submitted entries, in order; a
+   successful Sync/Close then makes all of them durable. Together with
+   [crash_recovers_boundary] (durable blocks are a prefix of every later recovery) nothing
+   synced is ever lost. *)
+Theorem synced_entries_durable f0 h f1 w1 ops1 oks1 a w2 ops2 :
+  start_ok f0 -> Forall api_ok h -> api_ok a -> is_barrier a = true ->
+  w_run nlen f0 w_closed h = (f1, w1, ops1, oks1) -> no_failed_close h oks1 = true ->
+  w_open w1 = true -> w_step nlen f1 w1 a = (w2, ops2, true) ->
+  let f2 := fs_run f1 ops2 in
+  elog_of (loaded_blocks true (dur f2)) =
+    elog_of (loaded_blocks true (vol f0)) ++ submitted false h /\
+  loaded_blocks true (vol f2) = loaded_blocks true (dur f2) /\
+  w_buf w2 = [].
+Proof.
+  intros (ds & bs & HI) Hh Ha Hbar Hrun Hnf Hopen Hstep f2.
+  destruct (inv_blocks nlen _ _ _ HI) as [_ EB0].
+  destruct (run_ok h _ _ _ _ _ _ _ _ (sinv_closed nlen _ _ _ HI) Hh Hrun)
+    as (ds1 & bs1 & HS1 & _ & _ & _ & _ & Htr1).
+  specialize (Htr1 Hnf). simpl in Htr1.
+  destruct (step_ok nlen f1 w1 ds1 bs1 a w2 ops2 true HS1 Ha Hstep)
+    as (ds2 & bs2 & HS2 & _ & _ & _ & Htr2 & Hbar2).
+  assert (Hcl : is_close a && negb true = false) by (destruct a; reflexivity).
+  specialize (Htr2 Hcl). destruct (Hbar2 Hbar eq_refl Hopen) as [-> Hbuf].
+  destruct HS2 as [HI2 _]. destruct (inv_blocks nlen _ _ _ HI2) as [ED2 EB2].
+  fold f2 in ED2, EB2. rewrite ED2, EB2, EB0.
+  assert (Hsub : sub1 (w_open w1) a = []) by (destruct a; try reflexivity; discriminate).
+  rewrite Hbuf, Hsub, !app_nil_r in Htr2. split3; auto.
+  now rewrite Htr2, Htr1.
+Qed.
+
+(* C25, clause 1 ("data already stored stays readable", "a failed write never hides earlier
+   records"): at every moment of every history with arbitrary write faults – after each single
+   file operation – the file as the process sees it is loadable and contains every block that
+   was complete before, in order (the reader errs only if there never was a complete block
+   and the header area is still being written). *)
+Theorem stored_stays_readable f0 h p q :
+  start_ok f0 -> Forall api_ok h ->
+  oplog nlen f0 w_closed h = p ++ q ->
+  let B0 := loaded_blocks true (vol f0) in
+  let B := loaded_blocks true (vol (fs_run f0 p)) in
+  prefix B0 B /\
+  (recover true (vol (fs_run f0 p)) = Some B \/
+   (recover true (vol (fs_run f0 p)) = None /\ B0 = [] /\ B = [])).
+Proof.
+  intros (ds & bs & HI) Hh Hlog B0 B.
+  unfold oplog, oplog_gen in Hlog. fold (w_run nlen f0 w_closed h) in Hlog.
+  destruct (w_run nlen f0 w_closed h) as [[[f' w'] ops] oks] eqn:Hrun. subst ops.
+  destruct (run_ok h _ _ _ _ _ _ _ _ (sinv_closed nlen _ _ _ HI) Hh Hrun)
+    as (ds' & bs' & _ & _ & _ & Hc & _ & _).
+  destruct (chain_prefix _ _ _ Hc p q eq_refl) as (dp & bp & HIp & Hdp & Hbp).
+  destruct (inv_blocks nlen _ _ _ HIp) as [_ EB].
+  destruct (inv_blocks nlen _ _ _ HI) as [_ EB0].
+  unfold B0, B. rewrite EB, EB0. split; [exact Hbp|].
+  destruct HIp as (_ & Hv & _ & _).
+  destruct (recover_shaped nlen _ _ Hv) as [E|[E E2]]; [now left|right].
+  split3; auto. rewrite E2 in Hbp. now apply prefix_of_nil in Hbp.
+Qed.
+
+(* what a history leaves in the file when no Close failed: exactly the submitted entries *)
+Theorem file_plus_buffer_is_submitted f0 h f1 w1 ops1 oks1 :
+  start_ok f0 -> Forall api_ok h ->
+  w_run nlen f0 w_closed h = (f1, w1, ops1, oks1) -> no_failed_close h oks1 = true ->
+  elog_of (loaded_blocks true (vol f1)) ++ w_buf w1 =
+    elog_of (loaded_blocks true (vol f0)) ++ submitted false h.
+Proof.
+  intros (ds & bs & HI) Hh Hrun Hnf.
+  destruct (inv_blocks nlen _ _ _ HI) as [_ EB0].
+  destruct (run_ok h _ _ _ _ _ _ _ _ (sinv_closed nlen _ _ _ HI) Hh Hrun)
+    as (ds1 & bs1 & HS1 & _ & _ & _ & _ & Htr1).
+  specialize (Htr1 Hnf). simpl in Htr1. destruct HS1 as [HI1 _].
+  destruct (inv_blocks nlen _ _ _ HI1) as [_ EB1]. now rewrite EB1, EB0.
+Qed.
+
+End Runs.
